@@ -135,3 +135,122 @@ pub fn core(n: usize) -> Vec<RV> {
     ];
     all.into_iter().take(n).collect()
 }
+
+// ---------------------------------------------------------------------------------------------
+// Mid-range sweep pools (values without any boundary character: ordinary magnitudes, calendar
+// positions, scales, longer strings and collections)
+
+pub fn sweep_ints() -> Vec<RV> {
+    let mut v: Vec<i128> = (-12..=12).collect();
+    v.extend([
+        24, 31, 59, 60, 61, 99, 100, 101, 255, 256, 365, 366, 999, 1000, 1001, 1024, 3599, 3600, 3601, 86_399, 86_401, 12_345, 65_535, 65_536, 100_000, 604_799, 604_801, 1_000_000,
+        123_456_789, 2_147_483_647, 2_147_483_648, 4_294_967_296, 1_000_000_007, 9_007_199_254_740_992, 9_007_199_254_740_993, 1_000_000_000_000_000_000, 31_536_000, 1_700_000_000,
+        253_402_300_799, 253_402_300_800, -62_135_596_800, -62_167_219_200, -1000, -3600, -86_400, -604_800, -123_456_789,
+    ]);
+    v.sort();
+    v.dedup();
+    v.into_iter().map(RV::Int).collect()
+}
+
+pub fn sweep_decimals() -> Vec<RV> {
+    let mut v = Vec::new();
+    for m in [0i128, 1, 2, 3, 5, 7, 9, 10, 11, 15, 25, 33, 45, 50, 55, 99, 100, 101, 125, 250, 999, 1000, 1005, 12345, 99995] {
+        for s in [0u32, 1, 2, 3, 5] {
+            v.push(RV::Dec(RDec { neg: false, mant: m as u128, scale: s }));
+            if m != 0 {
+                v.push(RV::Dec(RDec { neg: true, mant: m as u128, scale: s }));
+            }
+        }
+    }
+    v
+}
+
+pub fn sweep_floats() -> Vec<RV> {
+    [
+        0.25, 0.75, 1.25, 2.0, 2.5, 3.5, 4.5, -1.5, -3.5, 10.0, 100.0, 1e3, 1e6, 1e9, 123.456, -123.456, 0.1, 0.2, 0.3, 1e-3, 1e15, 1e16, 4503599627370495.5, 9007199254740992.0,
+        9007199254740994.0, 1e20, 1e-10, 255.5, 65536.0, 2147483648.0, 0.49999999999999994, 1.0000000000000002, 6.02e23,
+    ]
+    .into_iter()
+    .map(RV::float)
+    .collect()
+}
+
+pub fn sweep_strings() -> Vec<RV> {
+    let mut v: Vec<String> = Vec::new();
+    for a in ["", "a", "b", "é", "A"] {
+        for b in ["", "a", "b", " "] {
+            for c in ["", "b", "é"] {
+                v.push(format!("{a}{b}{c}"));
+            }
+        }
+    }
+    for x in [
+        "The quick brown fox", "ΟΔΟΣ", "Σ", "ΑΣΑ", "ΟΔΟΣ ΟΔΟΣ.", "ǅungla ǅ", "İstanbul", "ﬁﬂ", "ŉ", "Straße", "  leading and trailing  ", "MiXeD CaSe ÄÖÜ ß ǆ", "tab\tand\nnewline", "12", "012", "1_000", "1e2", " 5", "5 ", "0x10", "١٢٣", "1.50", "-1.5", ".5", "5.",
+        "2000-02-29T12:00:00Z", "2001-02-29T12:00:00Z", "2015-07-30 03:26:13 UTC", "2015-07-30T03:26:13.123456789Z", "1999-12-31T23:59:59-12:00", "10000-01-01T00:00:00Z",
+        "+10000-01-01T00:00:00Z", "0000-01-01T00:00:00Z", "-0001-12-31T00:00:00Z", "2015-07-30T03:26:13", "2015-07-30",
+    ] {
+        v.push(x.to_string());
+    }
+    v.push("x".repeat(300));
+    v.push(format!("{}needle{}", "hay".repeat(40), "stack".repeat(40)));
+    v.push("needle".into());
+    v.sort();
+    v.dedup();
+    v.into_iter().map(RV::Str).collect()
+}
+
+pub fn sweep_datetimes() -> Vec<RV> {
+    let mut v = Vec::new();
+    // every day of a leap year and of a common year at 13:14:15, plus every hour of one day
+    for (y0, days) in [(946_684_800i64, 366), (978_307_200i64, 365)] {
+        for d in 0..days {
+            v.push(RV::Dt(y0 + d * 86_400 + 13 * 3600 + 14 * 60 + 15, 0));
+        }
+    }
+    for h in 0..24 {
+        v.push(RV::Dt(1_438_214_400 + h * 3600 + 59 * 60 + 59, 999_999_999));
+    }
+    // year boundaries far from the epoch
+    for secs in [-62_167_219_200i64, -62_135_596_800, -62_135_596_801, -12_219_292_800, -2_208_988_800, 4_102_444_800, 253_402_300_799, 253_402_300_800, 3_093_527_980_800, -30_610_224_000, 951_782_400 - 1, 951_868_800, 68_169_600] {
+        v.push(RV::Dt(secs, 0));
+    }
+    v
+}
+
+pub fn sweep_durations() -> Vec<RV> {
+    let mut v = Vec::new();
+    for unit in [1i128, 60, 3600, 86_400, 604_800] {
+        for k in [0i128, 1, 2, 5, 10, 53] {
+            for d in [-1i128, 0, 1] {
+                let secs = k * unit + d;
+                v.push(RV::Dur(secs * 1_000_000_000));
+                v.push(RV::Dur(-secs * 1_000_000_000));
+                v.push(RV::Dur(secs * 1_000_000_000 + 500_000_000));
+            }
+        }
+    }
+    v.sort();
+    v.dedup();
+    v
+}
+
+pub fn sweep_lists() -> Vec<RV> {
+    let six: Vec<RV> = (1..=6).map(RV::Int).collect();
+    let twelve: Vec<RV> = (1..=12).map(|i| RV::Str(format!("s{i}"))).collect();
+    vec![
+        RV::List(six.clone()),
+        RV::List(twelve),
+        RV::List(vec![RV::float(1.0), RV::Int(1), RV::Dec(RDec { neg: false, mant: 1, scale: 0 }), RV::str("1"), RV::Bool(true), RV::None]),
+        RV::List(vec![RV::List(six.clone()), RV::map(&[("k", RV::Int(1))]), RV::List(vec![])]),
+        RV::List((0..40).map(RV::Int).collect()),
+    ]
+}
+
+pub fn sweep_maps() -> Vec<RV> {
+    let many: Vec<(String, RV)> = (0..12).map(|i| (format!("k{i}"), RV::Int(i))).collect();
+    vec![
+        RV::Map(many.into_iter().collect()),
+        RV::map(&[("a", RV::map(&[("a", RV::map(&[("a", RV::map(&[("a", RV::Int(4))]))]))]))]),
+        RV::map(&[("needle", RV::Int(1)), ("hay", RV::None), ("", RV::Int(0)), ("with space", RV::Int(2))]),
+    ]
+}
